@@ -90,6 +90,13 @@ class MemSocket:
             raise ConnectionResetError(errno.ECONNRESET, "Connection reset by peer (mem)")
         return b""
 
+    def recv_into(self, buffer, nbytes=0, flags=0):
+        mv = memoryview(buffer).cast("B")
+        n = nbytes or len(mv)
+        data = self.recv(min(n, len(mv)), flags)
+        mv[:len(data)] = data
+        return len(data)
+
     def _deliver(self, data):
         p = self.peer
         if self.closed:
